@@ -179,7 +179,11 @@ func buildAsync(x *Exec, s *AsyncScn) *asyncSys {
 		sys.tag = log.TagAppDef
 		sys.handle = log.GetLogger("alog")
 		cfg := spec.Render()
-		pv, st := call(func() { sys.err = log.Refresh(cfg) })
+		var pv any
+		var st string
+		if !x.do("refresh", func() { pv, st = call(func() { sys.err = log.Refresh(cfg) }) }) {
+			sys.err = fmt.Errorf("Refresh did not return: %v", x.clientsStuck())
+		}
 		if pv != nil {
 			sys.err = fmt.Errorf("Refresh panicked: %v at %s", pv, panicSite(st))
 		}
